@@ -660,8 +660,8 @@ type knownFinding struct {
 	// such suffixes from facts of the failing input (e.g. " partial-fanout": the run's fan-out is smaller than the
 	// cluster), so the finding is tied to that input, not to a symptom.
 	ClassSuffix string `json:"class_suffix,omitempty"`
-	What     string `json:"what"`
-	Since    string `json:"since,omitempty"`
+	What        string `json:"what"`
+	Since       string `json:"since,omitempty"`
 }
 
 type knownFile struct {
@@ -842,30 +842,30 @@ func cmdCheck(prop string, args []string) int {
 }
 
 type failList struct {
-	first Fail
-	race  bool
-	count int
+	first    Fail
+	race     bool
+	count    int
 	raceText string
 }
 
 type totals struct {
-	mu        sync.Mutex
-	runs      int
-	raceRuns  int
-	steps     int64
-	simNs     int64
-	ext       int
-	created   int64
-	preempted int
-	hashes    map[uint64]struct{}
-	nontriv   map[uint64]struct{}
-	kinds     map[string]int
-	counts    map[string]int
-	perVar    map[string]int
-	samples   []any
-	byClass   map[string]*failList
-	undecided []string
-	raceReports int
+	mu           sync.Mutex
+	runs         int
+	raceRuns     int
+	steps        int64
+	simNs        int64
+	ext          int
+	created      int64
+	preempted    int
+	hashes       map[uint64]struct{}
+	nontriv      map[uint64]struct{}
+	kinds        map[string]int
+	counts       map[string]int
+	perVar       map[string]int
+	samples      []any
+	byClass      map[string]*failList
+	undecided    []string
+	raceReports  int
 	harnessRaces int
 }
 
@@ -1287,30 +1287,30 @@ func writeEvidence(prop, tier string, base uint64, spec checkSpec, t *totals, wa
 		runsPerHour = float64(t.runs) / wall * 3600
 	}
 	cov := map[string]any{
-		"evaluations":         t.runs,
-		"distinct_nontrivial": len(t.nontriv),
-		"rule":                spec.Rule + " A case is one simulated run = one run seed = one choice tape; runs are distinct when the hash of their sequence of scheduling decisions (creation-order identity of the goroutine released at every scheduling point) differs; a run is non-trivial when at least one pre-emption of a still-runnable goroutine happened or at least one injected fault fired.",
-		"samples":             samples,
-		"distinct_schedules":  len(t.hashes),
-		"runs_in_race_binary": t.raceRuns,
-		"race_reports":        t.raceReports,
+		"evaluations":                      t.runs,
+		"distinct_nontrivial":              len(t.nontriv),
+		"rule":                             spec.Rule + " A case is one simulated run = one run seed = one choice tape; runs are distinct when the hash of their sequence of scheduling decisions (creation-order identity of the goroutine released at every scheduling point) differs; a run is non-trivial when at least one pre-emption of a still-runnable goroutine happened or at least one injected fault fired.",
+		"samples":                          samples,
+		"distinct_schedules":               len(t.hashes),
+		"runs_in_race_binary":              t.raceRuns,
+		"race_reports":                     t.raceReports,
 		"race_reports_inside_harness_only": t.harnessRaces,
-		"runs_with_preemption": t.preempted,
-		"scheduling_decisions": t.steps,
-		"simulated_seconds":   float64(t.simNs) / 1e9,
-		"runs_per_hour":       runsPerHour,
-		"verif_seed":          base,
-		"draws_by_kind":       t.kinds,
-		"faults_fired":        faults,
-		"reach_counters":      reach,
-		"runs_per_variant":    t.perVar,
-		"unregistered_goroutines_seen": t.ext,
-		"goroutines_created":  t.created,
-		"real_components":     spec.Real,
-		"stubbed_components":  spec.Stubs,
-		"known_findings_hit":  knownHit,
-		"tree_key":            key,
-		"exhaustive":          false,
+		"runs_with_preemption":             t.preempted,
+		"scheduling_decisions":             t.steps,
+		"simulated_seconds":                float64(t.simNs) / 1e9,
+		"runs_per_hour":                    runsPerHour,
+		"verif_seed":                       base,
+		"draws_by_kind":                    t.kinds,
+		"faults_fired":                     faults,
+		"reach_counters":                   reach,
+		"runs_per_variant":                 t.perVar,
+		"unregistered_goroutines_seen":     t.ext,
+		"goroutines_created":               t.created,
+		"real_components":                  spec.Real,
+		"stubbed_components":               spec.Stubs,
+		"known_findings_hit":               knownHit,
+		"tree_key":                         key,
+		"exhaustive":                       false,
 	}
 	ev := map[string]any{
 		"property_id": prop,
